@@ -56,7 +56,7 @@ def global_state_rule(ctx, rep, cl, functions):
             elif e.kind == "store_attr":
                 # assignment to an attribute of a class object / module
                 b = e.a
-                if b[0] == "global" or (b[0] == "param" and f.is_classmethod and f.params and b[1] == f.params[0]):
+                if b[0] == "global" or (b[0] == "param" and f.is_classmethod and f.params and b[1] == f.mparams[0]):
                     n += 1
                     rep.fail(cl + ".global-state", "%s:%s" % (f.name, e.b), "attribute %s of module/class object %s is assigned at run time" % (e.b, show(b)), W(f, e.node), key="%s.global-state|%s" % (cl, e.b))
                 continue
@@ -73,7 +73,7 @@ def global_state_rule(ctx, rep, cl, functions):
             elif root[0] == "attr":
                 base = root[1]
                 cls = None
-                if base[0] == "param" and f.cls is not None and f.params and base[1] == f.params[0]:
+                if base[0] == "param" and f.cls is not None and f.params and base[1] == f.mparams[0]:
                     cls = f.cls
                 elif base[0] == "global":
                     r = p.resolve_module_name(p.modules[base[1]], base[2])
@@ -127,7 +127,7 @@ def argument_mutation_rule(ctx, rep, cl, functions):
     n_sites = 0
     for f in functions:
         rep.analysed(f)
-        self_name = f.params[0] if (f.cls is not None and f.params and not f.is_staticmethod) else None
+        self_name = f.mparams[0] if (f.cls is not None and f.params and not f.is_staticmethod) else None
         bad = {}
         for path in ctx.A.paths(f).paths:
             if not path.feasible():
@@ -194,7 +194,7 @@ def process_lifetime_objects_rule(ctx, rep, cl, functions):
             if not is_mutable_display(d):
                 continue
             uses = []
-            self_name = f.params[0] if (f.cls is not None and f.params and not f.is_staticmethod) else None
+            self_name = f.mparams[0] if (f.cls is not None and f.params and not f.is_staticmethod) else None
             for path in ctx.A.paths(f).paths:
                 if not path.feasible():
                     continue
@@ -869,7 +869,7 @@ def _k3_discharge(ctx, f, s, base, idx, atoms, av):
     # juniper tables
     if f.module.name == JS and base[0] == "global" and base[2] in ("ALPHA_NUM", "EXTRA", "NUM_ALPHA", "ENCODING"):
         return _k3_juniper(ctx, f, base, idx, atoms)
-    if f.module.name == JS and f.name == "juniper_decrypt" and base == ("param", f.params[0]) and (M.builtin_call(idx, "len", 1) or (idx[0] == "const" and isinstance(idx[1], int) and 0 <= idx[1] <= 6)):
+    if f.module.name == JS and f.name == "juniper_decrypt" and base == ("param", f.mparams[0]) and (M.builtin_call(idx, "len", 1) or (idx[0] == "const" and isinstance(idx[1], int) and 0 <= idx[1] <= 6)):
         return True, "VALID (tested first) guarantees MAGIC plus at least four alphabet characters"
     if f.module.name == JS and base == ("param", "salt") and idx == ("const", 0):
         for t, pol in atoms:
@@ -1100,7 +1100,7 @@ def _codec_structure(ctx, rep, NUM_ALPHA, EXTRA, ENCODING, fixedc):
     for f in (f_dec, f_enc, f_gap, f_gd, f_ge, f_nib):
         rep.analysed(f)
     # _gap
-    c1, c2 = ("param", f_gap.params[0]), ("param", f_gap.params[1])
+    c1, c2 = ("param", f_gap.mparams[0]), ("param", f_gap.mparams[1])
     diff = ("binop", "-", ("sub", g("ALPHA_NUM"), c2), ("sub", g("ALPHA_NUM"), c1))
     want = ("binop", "-", ("binop", "%", ("binop", "+", diff, ln(g("NUM_ALPHA"))), ln(g("NUM_ALPHA"))), ("const", 1))
     want2 = ("binop", "-", ("binop", "%", diff, ln(g("NUM_ALPHA"))), ("const", 1))
@@ -1108,7 +1108,7 @@ def _codec_structure(ctx, rep, NUM_ALPHA, EXTRA, ENCODING, fixedc):
         r = path.returned()
         rep.ob("C18.gap", "_gap", r in (want, want2) and not path.conds, "_gap(c1, c2) = %s; expected ((index(c2) - index(c1)) mod |alphabet|) - 1" % show(r), W(f_gap), key="C18.gap|_gap")
     # _gap_decode
-    gp, dp = ("param", f_gd.params[0]), ("param", f_gd.params[1])
+    gp, dp = ("param", f_gd.mparams[0]), ("param", f_gd.mparams[1])
     ok_guard = ok_val = False
     for path in A.paths(f_gd).paths:
         if path.kind == "raise":
@@ -1170,7 +1170,7 @@ def _codec_structure(ctx, rep, NUM_ALPHA, EXTRA, ENCODING, fixedc):
     rep.ob("C18.encode-greedy", "_gap_encode", ok_dec, "weights are walked from largest to smallest with // and %= on the same running value, gaps inserted at the front (greedy mixed-radix decomposition)", W(f_ge), key="C18.encode-greedy|_gap_encode")
     rep.ob("C18.encode-ring", "_gap_encode", ok_emit, "per gap the emitted character is NUM_ALPHA[(index(prev) + gap + 1) mod |alphabet|], prev advancing to the emitted character, output accumulated in order", W(f_ge), key="C18.encode-ring|_gap_encode")
     # juniper_decrypt
-    crypt = ("param", f_dec.params[0])
+    crypt = ("param", f_dec.mparams[0])
     valid_test = ("call", ("attr", ("global", JS, "re"), "search"), (g("VALID"), crypt), ())
     n_ret = 0
     refuse_ok = False
@@ -1230,7 +1230,7 @@ def _codec_structure(ctx, rep, NUM_ALPHA, EXTRA, ENCODING, fixedc):
     rep.ob("C18.refusal", "juniper_decrypt", refuse_ok, "an empty or VALID-failing string is refused with ValueError before any table access", W(f_dec), key="C18.refusal|juniper_decrypt")
     rep.ob("C18.decode-paths", "juniper_decrypt", n_ret >= 1, "decoding paths: %d" % n_ret, W(f_dec), nontrivial=False)
     # encoder
-    plain, saltp = ("param", f_enc.params[0]), ("param", f_enc.params[1])
+    plain, saltp = ("param", f_enc.mparams[0]), ("param", f_enc.mparams[1])
     n_enc = 0
     for path in A.paths(f_enc).paths:
         if not path.feasible() or path.kind != "return":
